@@ -25,10 +25,10 @@ type Column struct {
 	Type    string   `json:"type"` // serial | integer | smallint | real | text | boolean | timestamp | date | bytea | jsonb | <t>[] | composite:<n>
 	NotNull bool     `json:"notnull"`
 	Primary bool     `json:"primary"`
-	In      []string `json:"in"`       // allowed values (canonical text), empty = any
-	ArrLen  int      `json:"arrlen"`   // -1 = any
-	Default string   `json:"default"`  // canonical text, "" = none
-	Equals  string   `json:"equals"`   // guard check col = value, "" = none
+	In      []string `json:"in"`      // allowed values (canonical text), empty = any
+	ArrLen  int      `json:"arrlen"`  // -1 = any
+	Default string   `json:"default"` // canonical text, "" = none
+	Equals  string   `json:"equals"`  // guard check col = value, "" = none
 	HasDef  bool     `json:"hasdef"`
 	HasEq   bool     `json:"haseq"`
 }
@@ -106,7 +106,7 @@ type conn struct {
 }
 
 func (c *conn) Prepare(q string) (driver.Stmt, error) { return &stmt{c: c, q: q}, nil }
-func (c *conn) Close() error                           { return nil }
+func (c *conn) Close() error                          { return nil }
 func (c *conn) Begin() (driver.Tx, error) {
 	c.db.mu.Lock()
 	defer c.db.mu.Unlock()
@@ -146,7 +146,9 @@ func (s *stmt) NumInput() int { return -1 }
 
 type result struct{ n int64 }
 
-func (r result) LastInsertId() (int64, error) { return 0, fmt.Errorf("pgmini: LastInsertId is not supported") }
+func (r result) LastInsertId() (int64, error) {
+	return 0, fmt.Errorf("pgmini: LastInsertId is not supported")
+}
 func (r result) RowsAffected() (int64, error) { return r.n, nil }
 
 func (s *stmt) Exec(args []driver.Value) (driver.Result, error) {
@@ -169,7 +171,7 @@ func (s *stmt) Exec(args []driver.Value) (driver.Result, error) {
 	if err != nil {
 		return nil, err
 	}
-	return result{int64(len(rs.data))}, nil
+	return result{int64(rs.affected)}, nil
 }
 
 func (s *stmt) Query(args []driver.Value) (driver.Rows, error) {
@@ -183,9 +185,10 @@ func (s *stmt) Query(args []driver.Value) (driver.Rows, error) {
 }
 
 type rows struct {
-	cols []string
-	data [][]driver.Value
-	i    int
+	cols     []string
+	data     [][]driver.Value
+	i        int
+	affected int
 }
 
 func (r *rows) Columns() []string { return r.cols }
@@ -260,10 +263,10 @@ func lex(q string) ([]tok, error) {
 }
 
 type cond struct {
-	op    string // and | or | eq | any | isnull | phnull | true
-	l, r  *cond
-	col   string
-	ph    int
+	op   string // and | or | eq | any | isnull | phnull | true
+	l, r *cond
+	col  string
+	ph   int
 }
 
 type parsed struct {
@@ -474,20 +477,26 @@ func parse(q string) (*parsed, error) {
 		if out.table, err = p.ident(); err != nil {
 			return nil, err
 		}
-		if !p.punct("(") {
-			return nil, fmt.Errorf("pgmini: syntax error: ( expected")
-		}
-		if out.cols, err = p.identList(); err != nil {
-			return nil, err
-		}
-		if !p.punct(")") || !p.kw("values") || !p.punct("(") {
-			return nil, fmt.Errorf("pgmini: syntax error in INSERT")
-		}
-		if out.vals, err = p.phList(); err != nil {
-			return nil, err
-		}
-		if !p.punct(")") {
-			return nil, fmt.Errorf("pgmini: syntax error: ) expected")
+		if p.kw("default") {
+			if !p.kw("values") {
+				return nil, fmt.Errorf("pgmini: syntax error after DEFAULT")
+			}
+		} else {
+			if !p.punct("(") {
+				return nil, fmt.Errorf("pgmini: syntax error: ( expected")
+			}
+			if out.cols, err = p.identList(); err != nil {
+				return nil, err
+			}
+			if !p.punct(")") || !p.kw("values") || !p.punct("(") {
+				return nil, fmt.Errorf("pgmini: syntax error in INSERT")
+			}
+			if out.vals, err = p.phList(); err != nil {
+				return nil, err
+			}
+			if !p.punct(")") {
+				return nil, fmt.Errorf("pgmini: syntax error: ) expected")
+			}
 		}
 		if err := tail(); err != nil {
 			return nil, err
@@ -612,7 +621,9 @@ func (c *Column) coerce(v driver.Value) (any, error) {
 		return nil, nil
 	}
 	base := c.Type
-	bad := func() error { return fmt.Errorf("pgmini: column %q is of type %s but the value is %T (%v)", c.Name, c.Type, v, v) }
+	bad := func() error {
+		return fmt.Errorf("pgmini: column %q is of type %s but the value is %T (%v)", c.Name, c.Type, v, v)
+	}
 	asText := func() (string, bool) {
 		switch x := v.(type) {
 		case string:
@@ -895,7 +906,10 @@ func (db *DB) project(t *table, rs []row, cols []string) (*rows, error) {
 			return nil, err
 		}
 	}
-	res := &rows{cols: cols}
+	res := &rows{cols: cols, affected: len(rs)}
+	if len(cols) == 0 {
+		return res, nil
+	}
 	for _, r := range rs {
 		vals := make([]driver.Value, len(cols))
 		for i, c := range cols {
@@ -1013,7 +1027,7 @@ func (db *DB) deleteRows(t *table, victims []row, depth int) error {
 						r[fk.Col] = nil
 					}
 				default:
-					return fmt.Errorf("pgmini: update or delete on table %q violates foreign key constraint on table %q (%s)", t.def.Name, other.def.Name, fk.Col)
+					// NO ACTION: checked at the end of the statement (see integrity)
 				}
 			}
 		}
@@ -1026,6 +1040,64 @@ func (db *DB) deleteRows(t *table, victims []row, depth int) error {
 	}
 	t.rows = kept
 	return nil
+}
+
+// integrity is the end-of-statement check of every foreign key (NO ACTION semantics).
+func (db *DB) integrity() error {
+	for _, t := range db.sortedTables() {
+		for _, fk := range t.def.FKs {
+			target := db.tables[fk.Ref]
+			if target == nil {
+				return fmt.Errorf("pgmini: relation %q does not exist", fk.Ref)
+			}
+			pk := ""
+			for _, c := range target.def.Cols {
+				if c.Primary {
+					pk = c.Name
+				}
+			}
+			for _, r := range t.rows {
+				if r[fk.Col] == nil {
+					continue
+				}
+				found := false
+				for _, tr := range target.rows {
+					if canon(tr[pk]) == canon(r[fk.Col]) {
+						found = true
+						break
+					}
+				}
+				if !found {
+					return fmt.Errorf("pgmini: update or delete on table %q violates foreign key constraint on table %q (%s = %s is still referenced)", fk.Ref, t.def.Name, fk.Col, canon(r[fk.Col]))
+				}
+			}
+		}
+	}
+	return nil
+}
+
+type snapshot map[string][]row
+
+func (db *DB) snap() snapshot {
+	out := snapshot{}
+	for n, t := range db.tables {
+		cp := make([]row, len(t.rows))
+		for i, r := range t.rows {
+			cr := row{}
+			for k, v := range r {
+				cr[k] = v
+			}
+			cp[i] = cr
+		}
+		out[n] = cp
+	}
+	return out
+}
+
+func (db *DB) restore(s snapshot) {
+	for n, rs := range s {
+		db.tables[n].rows = rs
+	}
 }
 
 func (db *DB) sortedTables() []*table {
@@ -1041,8 +1113,22 @@ func (db *DB) sortedTables() []*table {
 	return out
 }
 
+// run executes one statement atomically: a failing statement leaves the tables unchanged
+// (sequences are not rolled back, as in PostgreSQL).
 func (db *DB) run(p *parsed, args []driver.Value) (*rows, error) {
 	db.Log = append(db.Log, p.kind+" "+p.table)
+	if p.kind == "select" {
+		return db.run1(p, args)
+	}
+	s := db.snap()
+	res, err := db.run1(p, args)
+	if err != nil {
+		db.restore(s)
+	}
+	return res, err
+}
+
+func (db *DB) run1(p *parsed, args []driver.Value) (*rows, error) {
 	t, err := db.tableOf(p.table)
 	if err != nil {
 		return nil, err
@@ -1129,6 +1215,9 @@ func (db *DB) run(p *parsed, args []driver.Value) (*rows, error) {
 			return nil, err
 		}
 		if err := db.deleteRows(t, rs, 0); err != nil {
+			return nil, err
+		}
+		if err := db.integrity(); err != nil {
 			return nil, err
 		}
 		return res, nil
